@@ -24,9 +24,12 @@ def scratch_root():
 class Scratch:
     """A real scratch directory (tmpfs), removed on exit; paths never enter event logs."""
 
-    def __init__(self):
+    def __init__(self, tag=None):
+        # tag given: the same path for every round of one scenario (commands are called several
+        # times in one process on the same paths with different contents, so state cached
+        # across calls shows), yet never shared between scenarios (replays stay self-contained)
         _COUNTER[0] += 1
-        self.path = os.path.join(scratch_root(), f"verif-sim-{os.getpid()}-{_COUNTER[0]}")
+        self.path = os.path.join(scratch_root(), f"verif-sim-{os.getpid()}-{tag if tag else _COUNTER[0]}")
 
     def __enter__(self):
         shutil.rmtree(self.path, ignore_errors=True)
